@@ -8,11 +8,11 @@ by the reference consensus interpreter against the funding script/amount derived
 import itertools
 import hashlib
 
-from vf import txgen
+from vf import txgen, txhist
 from vf.ref import secp, codec, tx as rtx, interp, nets
 
 ID = 'C01'
-LEVEL = 'exploration'
+LEVEL = 'model_checking'
 RULE = ('transaction specs = full product of input-kind tuples (length <= k) x field vectors (version, locktime, '
         'sequences, input values incl. 2^32 and 21e14) x output shapes (all standard kinds, nulldata, non-standard, '
         '252/253 outputs) [+ m-of-n menu, + all networks]; each spec is built and signed through the library API; '
@@ -205,7 +205,11 @@ def _brief(spec):
             'n_out': len(spec['outputs']), 'network': spec['network']}
 
 
-SUBS = {'tx': sub_tx}
+def sub_hist(case):
+    return txhist.sub_hist(case, txhist.check_digests_and_signatures)
+
+
+SUBS = {'tx': sub_tx, 'hist': sub_hist}
 
 SUPPLY = 21 * 10 ** 14
 FIELDS = [
@@ -288,5 +292,11 @@ def run(ctx):
     for kind in K:
         add([kind], f=FIELDS[4], outputs=shapes[2], kb=100 + (seed % 1000))
     ctx.pmap('tx', cases)
+    # operation histories on one live Transaction object (state surviving between calls): BFS, every history
+    # replayed on a fresh object; the digest must match the CURRENT fields and a freshly re-signed transaction
+    # must pass the reference interpreter
+    hcfgs = [({'kinds': k, 'seed': seed % 1000, 'events': txhist.EVENTS}, 3 if q else 4) for k in txhist.CONFIGS]
+    nstates = ctx.bfs_multi('hist', hcfgs, max_states=4000 if q else 60000)
+    ctx.note('history_states', nstates)
     ctx.note('bounds', {'max_inputs': kmax, 'field_vectors': len(FIELDS), 'output_shapes': len(shapes),
                         'm_of_n': mns, 'networks': nets.NAMES, 'specs': len(cases)})
